@@ -180,7 +180,7 @@ fn make_layout(rng: &mut Rng, cl: bool) -> Layout {
     let e = extra.addr();
     let mut ranges: Vec<Range<u64>> = Vec::new();
     let rdesc;
-    match if cl { 0 } else { rng.below(7) } {
+    match if cl { 0 } else { rng.below(9) } {
         0 => rdesc = "no-range",
         1 => {
             ranges.push(e..e + 64);
@@ -199,6 +199,24 @@ fn make_layout(rng: &mut Rng, cl: bool) -> Layout {
         4 => {
             ranges.push(e + 8..e + 8);
             rdesc = "empty-range"
+        }
+        7 => {
+            // a registered range that CONTAINS the packet (and mapped bytes after it): an access
+            // running past the packet end but inside the range is allowed
+            match &pkt {
+                Some(p) if p.slack_after() >= 40 => {
+                    ranges.push(p.addr()..p.addr() + p.len() as u64 + 32);
+                    rdesc = "range-contains-packet"
+                }
+                _ => rdesc = "no-range",
+            }
+        }
+        8 => {
+            // overlapping and duplicated ranges
+            ranges.push(e..e + 40);
+            ranges.push(e + 24..e + 64);
+            ranges.push(e + 24..e + 64);
+            rdesc = "overlapping-ranges"
         }
         5 => {
             ranges.push(e..e + 1);
